@@ -87,3 +87,34 @@ theorem handleErr_framework (pr : Char → Bool) (raw : Bytes) (oc : Outcome) (h
     | ok _ => cases hoc
 
 end Ombott.ErrorPage
+
+namespace Ombott.ErrorPage
+open Py
+
+/-! ### urlquote -/
+
+theorem hexDigitU_safe : ∀ k : Fin 16, hexDigitU k.val ∉ special := by decide
+
+/-- no byte `urlquote` passes through is a special character (decidable; evaluated on the
+generated table) -/
+def QuoteTableOK : Bool := Gen.urlquoteSafe.all fun b => !(special.contains (Char.ofNat b))
+
+theorem urlquote_safe (hq : QuoteTableOK = true) (s : Str) : ∀ c ∈ urlquote s, c ∉ special := by
+  intro c hc
+  unfold urlquote at hc
+  obtain ⟨b, _, hcb⟩ := List.mem_flatMap.mp hc
+  split at hcb
+  · rename_i hs
+    simp only [List.mem_singleton] at hcb
+    subst hcb
+    simp only [QuoteTableOK, List.all_eq_true, Bool.not_eq_true', List.contains_eq_mem,
+      decide_eq_false_iff_not] at hq
+    exact hq b.toNat (by simpa using hs)
+  · simp only [List.mem_cons, List.not_mem_nil, or_false] at hcb
+    have hb : b.toNat < 256 := b.toNat_lt
+    rcases hcb with rfl | rfl | rfl
+    · decide
+    · exact hexDigitU_safe ⟨b.toNat / 16, by omega⟩
+    · exact hexDigitU_safe ⟨b.toNat % 16, Nat.mod_lt _ (by decide)⟩
+
+end Ombott.ErrorPage
